@@ -162,8 +162,22 @@ class Prop(BaseProp):
             inp = os.path.join(sb, "w", "proj")
             tree.write(inp)
             cwd = os.path.join(sb, "w")
-            o = runner.run_main([rng.choice([inp, "proj", "proj/"]), "-r"] + base_argv, cwd=cwd, home=home)
-            wit = {"argv": base_argv, "settings": rstcfg, "tree_files": sorted(tree.files)}
+            # further inputs in the same invocation: a second directory and a lone file, documented after the first
+            multi = rng.random() < 0.35
+            extra_inputs = []
+            if multi:
+                d2 = os.path.join(sb, "w", "second")
+                os.makedirs(os.path.join(d2, "s_sub"))
+                for fn in ("s_one.cmake", "s_sub/s_two.cmake"):
+                    with open(os.path.join(d2, fn), "w") as f:
+                        f.write("function(x)\nendfunction()\n")
+                lone = os.path.join(sb, "w", "lone_input.cmake")
+                with open(lone, "w") as f:
+                    f.write("function(y)\nendfunction()\n")
+                extra_inputs = [d2, lone]
+                res.count("multi_input_invocations")
+            o = runner.run_main([rng.choice([inp, "proj", "proj/"])] + extra_inputs + ["-r"] + base_argv, cwd=cwd, home=home)
+            wit = {"argv": base_argv, "settings": rstcfg, "tree_files": sorted(tree.files), "extra_inputs": extra_inputs}
             if not o.ok:
                 res.violate(o.crash_class() or f"exit:{o.exit_code}", str(o.exc)[:200], wit)
                 return res
@@ -186,6 +200,17 @@ class Prop(BaseProp):
                     res.count("titles_compared_for_injectivity")
             res.sig = sig_hash([sep, ext_t, ext_m, len(headers), prefix_src, prefix, tree.shape(),
                                 sorted((k, bool(v), bool(v and v["name"])) for k, v in mdocs.items())])
+            if multi and o.ok:
+                for relp, pfx, base_name in (("s_one.rst", prefix or "second", "s_one.cmake"),
+                                            ("s_sub/s_two.rst", prefix or "second", "s_sub/s_two.cmake"),
+                                            ("lone_input.rst", prefix, "lone_input.cmake")):
+                    pg = os.path.join(out, relp)
+                    if not os.path.exists(pg):
+                        res.violate("page-missing:multi-input", relp, wit)
+                        continue
+                    base = (pfx + sep if pfx else "") + base_name
+                    self.check_page(res, open(pg, encoding="utf-8").read(), base if ext_t else strip_ext(base),
+                                    base if ext_m else strip_ext(base), headers, None, dict(wit, page=relp), "later-input")
             for t, ps in titles.items():
                 if len(ps) > 1:
                     res.violate("titles-collide", f"{ps} all titled {t!r}", wit)
